@@ -77,6 +77,9 @@ func (e *Engine) verifyFunc(f *ssa.Function, ct *Contract) *FnVC {
 		in.letVals[l[0]] = v
 	}
 	for _, r := range ct.Requires {
+		if r.Assumed {
+			fv.note("assumed input condition: " + r.Expr)
+		}
 		fv.assume("true", ce.evalAssume("true", r.Expr))
 		// vacuity guard: the precondition must be satisfiable
 	}
@@ -277,9 +280,17 @@ func (fv *FnVC) finishReturn(in *inst, r retInfo, suffix string) {
 			if fv.frame != nil && fv.frame[k] != nil {
 				inFrame = fv.frame[k].pred(sk)
 			}
-			goal := implies(and("(< (root "+sk+") A0)", not(inFrame)), eq(fv.loadRaw(h, sk), fv.loadRaw(h0, sk)))
-			fv.oblige(funcKey(f)+"#frame:"+frameKeyName(k)+suffix, "frame", frameProps, st.reach, goal,
+			var done func()
+			if fv.frame != nil && fv.frame[k] != nil && len(fv.frameCPs) > 0 {
+				done = fv.useFrameCPs(k, sk, st.reach)
+			}
+			goal := implies(and("(< (root "+sk+") A0)", "(not (= (root "+sk+") (- 1)))", not(inFrame)), eq(fv.loadRaw(h, sk), fv.loadRaw(h0, sk))) // the nil location holds nothing
+			if done != nil {
+				done()
+			}
+			fo := fv.oblige(funcKey(f)+"#frame:"+frameKeyName(k)+suffix, "frame", frameProps, st.reach, goal,
 				"assigns: only declared locations of pre-existing objects change ("+k+")", pos)
+			fo.Inherited = len(frameProps) == len(in.propsFor(nil))
 		}
 		if st.dirty != "" && st.dirty != "false" && !fv.frameAny {
 			fv.oblige(funcKey(f)+"#frame:all"+suffix, "frame", frameProps, st.reach, not(st.dirty), "no call with unknown effects (it may write any memory) on a path to this return", pos)
